@@ -2,7 +2,7 @@ package main
 
 import (
 	"fmt"
-	"time"
+	"os"
 
 	"github.com/frankkopp/FrankyGo/internal/config"
 	"github.com/frankkopp/FrankyGo/internal/position"
@@ -13,17 +13,13 @@ func main() {
 	config.LogLevel = 0
 	config.SearchLogLevel = 0
 	config.Settings.Search.UseBook = false
-	config.Settings.Search.TTSize = 4
-	fen := "4r3/p1k2pp1/1p4q1/2p5/3r1p2/4N3/P4QBP/6RK w - - 0 1"
-	s := search.NewSearch()
-	for _, us := range []int{0, 200, 500, 1000, 2000, 3000, 5000, 8000} {
-		s.NewGame()
+	config.Settings.Search.TTSize = 2
+	config.Settings.Search.UseLmp = false
+	for _, fen := range os.Args[1:] {
+		s := search.NewSearch()
 		p, _ := position.NewPositionFen(fen)
-		s.StartSearch(*p, search.Limits{Nodes: 9654, Depth: 9})
-		time.Sleep(time.Duration(us) * time.Microsecond)
-		p2, _ := position.NewPositionFen(fen)
-		s.StartSearch(*p2, search.Limits{Depth: 1})
+		s.StartSearch(*p, search.Limits{Depth: 8, Nodes: 1500000})
 		s.WaitWhileSearching()
-		fmt.Println("sleep", us, "nodes", s.NodesVisited(), "depth", s.LastSearchResult().SearchDepth)
+		fmt.Println(fen, s.LastSearchResult().BestMove.StringUci(), s.NodesVisited(), s.LastSearchResult().SearchDepth)
 	}
 }
